@@ -13,6 +13,7 @@ import (
 	"math/rand"
 	"net/http"
 	"os"
+	"path/filepath"
 	"runtime/debug"
 	"strconv"
 	"strings"
@@ -694,6 +695,12 @@ func configCases() []Case {
 		{"startup", "times"}, {"result", "destination"}, {"id"}, {"gun", "ssl"}, {"ammo", "uris"}, {"rps"}, {"gun"}, {"ammo", "headers"}}
 	values := []any{"${property:/nonexistent-file}", "${property:}", "${property:#}", "${property:/etc/hostname}", "${property:/etc/hostname#nokey}", "${env:}", "${:x}", "${env:VERIF_UNSET_VAR_XYZ}", "${", "${}",
 		"${env:VERIF_SET}", "${ENV:VERIF_SET}${env:VERIF_SET}", "${unknown:x}", "-1s", "-5", -5, 1e300, "1e999", nil, []any{}, map[string]any{}, map[string]any{"type": 5}, []any{1, "x"}, true, "", "\x00", strings.Repeat("9", 40), "0x10", "1_000"}
+	// a properties file with everything but well-formed lines, and placeholders that name its odd lines
+	propFile := filepath.Join(os.Getenv("VERIF_TMP"), "c13-odd.properties")
+	_ = os.WriteFile(propFile, []byte("\n\nbare\n=novalue\nempty=\nk=v=w\n spaced = x \n#comment\ndup=1\ndup=2\nnum=3\n\x00\xff=bin\nlast-without-newline"), 0o644)
+	for _, k := range []string{"", "bare", "=novalue", "empty", "k", " spaced ", "spaced", "#comment", "dup", "num", "nokey", "last-without-newline", "\x00\xff", "#"} {
+		values = append(values, "${property:"+propFile+"#"+k+"}")
+	}
 	var out []Case
 	for _, p := range paths {
 		for _, v := range values {
